@@ -29,7 +29,7 @@ META = {
             'whole-microsecond domains, 1 for the others; thorough: bound 2-3, also 3 threads with bound 1-3), by 2 threads x 1 call '
             '(first use only; bound 3, thorough 4) and by a single thread x 3-4 calls (thorough: 4-5), with every clock-reading '
             'sequence chosen per call (every value in every position) from: whole microseconds {10,11,12} us (standing still / '
-            'stepping back); around the epoch {-1,0,1} us for 2 threads and {-2,-1,0,1,2} us for 1 thread x 4 calls (0 is the '
+            'stepping back); around the epoch {-1,0,1} us for 2 threads (thorough also {-1,0} us for 3 threads x 1 call) and {-2,-1,0,1,2} us for 1 thread x 4 calls (0 is the '
             'generator\'s initial `last` and also a legitimate reading and returned value; negative readings, readings at and '
             'crossing zero in any order), and the float seconds {-1e-6,-5e-7,0.0,5e-7,1e-6} (1 thread x 4 calls); first use with '
             '{0,10,11} us; {10,1500000,3000000} us (jump far ahead, then fall back by more than the 1 s warning threshold with the '
@@ -265,7 +265,7 @@ def run(ctx):
         cfgs += [('3x1', {'calls': [1, 1, 1], 'domain': [10, 11, 12]}, 3),
                  ('3-211', {'calls': [2, 1, 1], 'domain': [10, 12]}, 2),
                  ('3-211-drift', {'calls': [2, 1, 1], 'domain': [1500000, 3000000]}, 1),
-                 ('3x1-zero', {'calls': [1, 1, 1], 'domain': ZERO[1:4]}, 3)]
+                 ('3x1-zero', {'calls': [1, 1, 1], 'domain': ZERO[1:3]}, 3)]
     for name, params, bound in cfgs:
         before = ctx.counters.get('skew_warning_executions', 0)
         sched.explore(ctx, 'c31-' + name, harness, params, bound)
